@@ -60,9 +60,9 @@ def routed (a : Abs) (topic payload : Bytes) (qos : UInt8) (ctx : String) : Abs 
 
 def ret (a : Abs) (call : String) (e : Cl.Err) : Abs := { a with exp := { a.exp with rets := a.exp.rets ++ [(call, e)] } }
 
-def published (a : Abs) (call : String) (topic payload : Bytes) (qos : UInt8) : Abs :=
+def published (a : Abs) (call : String) (topic payload : Bytes) (qos : UInt8) (retain : Bool) : Abs :=
   let q := if qos = 3 then 0 else qos
-  let a := { a with exp := { a.exp with recv := a.exp.recv ++ [(topic, payload, q, false)] } }
+  let a := { a with exp := { a.exp with recv := a.exp.recv ++ [(topic, payload, q, retain)] } }
   (a.routed topic payload q "own-publish").ret call .ok
 
 def op (a : Abs) (o : Sys.Op) : Abs :=
@@ -77,11 +77,15 @@ def op (a : Abs) (o : Sys.Op) : Abs :=
     | some n => ({ a with subs := (n, q, Cl.Cl.preLabel id) :: a.subs.filter (·.1 ≠ n) }).ret c .ok
     | none => a.ret c .badTopicId
   | .api c (.unsubscribe f) => ({ a with subs := a.subs.filter (·.1 ≠ f) }).ret c .ok
-  | .api c (.publish n q _ p) => if a.known n then a.published c n p q else a.ret c .notRegistered
-  | .api c (.publishPre id q _ p) =>
+  | .api c (.publish n q r p) => if a.known n then a.published c n p q r else a.ret c .notRegistered
+  | .api c (.publishPre id q r p) =>
     match a.predef.getTopicName a.cid id with
-    | some n => a.published c n p q
+    | some n => a.published c n p q r
     | none => a.ret c .ok
+  | .api c (.unsubscribePre id) =>
+    match a.predef.getTopicName a.cid id with
+    | some n => ({ a with subs := a.subs.filter (·.1 ≠ n) }).ret c .ok
+    | none => a.ret c .badTopicId
   | .api c (.sleep _) => ({ a with asleep := true }).ret c .ok
   | .api c .disconnect => ({ a with live := false }).ret c .ok
   | .api c _ => a.ret c .ok
